@@ -416,7 +416,7 @@ pub fn apply_step(script: &Script, log: &mut MultiRecordLog, step: &Step) -> (Va
 
 pub fn run_line(script: &Script, run_id: usize) -> Value {
     let qlen: Vec<usize> = script.queues.iter().map(|name| name.len()).collect();
-    json!({"ev": "run", "id": run_id, "c14": 0, "script": script.name, "policy": script.policy,
+    json!({"ev": "run", "id": run_id, "c14": 0, "prepop": 0, "script": script.name, "policy": script.policy,
            "nq": script.queues.len(), "qlen": qlen})
 }
 
